@@ -30,31 +30,33 @@ class Info(object):
         self.wp = {}
         self.wp_facilities = {}
         self.wp_inputs = {}
-        wpn = [wp["name"] for wp in spec.get("workplaces", [])]
+        wpn = [(wp.get("id") or wp["name"]) for wp in spec.get("workplaces", [])]  # workplace IDs (names may repeat)
         for wp in spec.get("workplaces", []):
-            self.wp[wp["name"]] = wp
-            self.wp_targets[wp["name"]] = set(self.tnames[i] for i in wp.get("targets", []))
-            self.wp_facilities[wp["name"]] = [(f.get("id") or f["name"]) for f in wp.get("facilities", [])]
-            self.wp_inputs[wp["name"]] = [wpn[i] for i in wp.get("inputs", [])]
+            wid = wp.get("id") or wp["name"]
+            self.wp[wid] = wp
+            self.wp_targets[wid] = set(self.tnames[i] for i in wp.get("targets", []))
+            self.wp_facilities[wid] = [(f.get("id") or f["name"]) for f in wp.get("facilities", [])]
+            self.wp_inputs[wid] = [wpn[i] for i in wp.get("inputs", [])]
             for f in wp.get("facilities", []):
                 self.facilities[f.get("id") or f["name"]] = f
-                self.fac_wp[f.get("id") or f["name"]] = wp["name"]
+                self.fac_wp[f.get("id") or f["name"]] = wid
         self.comps = {}
         self.task_comp = {}
         self.comp_tasks = {}
         self.comp_children = {}
         self.comp_parents = {}
-        cn = [c["name"] for c in spec.get("components", [])]
+        cn = [(c.get("id") or c["name"]) for c in spec.get("components", [])]  # component IDs
         for c in spec.get("components", []):
-            self.comps[c["name"]] = c
-            self.comp_tasks[c["name"]] = [self.tnames[i] for i in c.get("tasks", [])]
-            self.comp_children[c["name"]] = [cn[i] for i in c.get("children", [])]
-            self.comp_parents.setdefault(c["name"], [])
+            cid = c.get("id") or c["name"]
+            self.comps[cid] = c
+            self.comp_tasks[cid] = [self.tnames[i] for i in c.get("tasks", [])]
+            self.comp_children[cid] = [cn[i] for i in c.get("children", [])]
+            self.comp_parents.setdefault(cid, [])
             for i in c.get("tasks", []):
-                self.task_comp[self.tnames[i]] = c["name"]
+                self.task_comp[self.tnames[i]] = cid
         for c in spec.get("components", []):
             for i in c.get("children", []):
-                self.comp_parents.setdefault(cn[i], []).append(c["name"])
+                self.comp_parents.setdefault(cn[i], []).append(c.get("id") or c["name"])
 
     # ---- task facts
     def prefinished(self, tn):
